@@ -12,7 +12,7 @@ CACHE = os.path.join(ROOT, '.cache')
 DOMAINS_FOR = {
     'C01': ['frame-encode', 'frame-decode'], 'C02': ['frame-decode', 'stream', 'frame-encode'], 'C03': ['frame-decode'],
     'C04': ['message'], 'C05': ['message', 'frame-decode', 'stream', 'frame-encode'], 'C06': ['page'], 'C07': ['page'], 'C19': ['signtype'],
-    'C08': ['e2e'], 'C09': ['controller'], 'C10': ['controller'], 'C11': ['controller'], 'C15': ['stream'], 'C16': ['serial'], 'C17': ['bridge', 'serial-path'], 'C18': ['serial'],
+    'C08': ['e2e'], 'C09': ['controller'], 'C10': ['controller'], 'C11': ['controller'], 'C14': ['bus'], 'C15': ['stream'], 'C16': ['serial'], 'C17': ['bridge', 'serial-path'], 'C18': ['serial'],
 }
 
 
